@@ -113,6 +113,8 @@ func installHook() {
 	numLabels = int(numOps) * (numKinds + 1)
 	pairSeen = make([]uint64, (numLabels*numLabels+63)/64)
 	hook.SimNow = simEpoch // the simulated clock starts on 2026-01-01T00:00:00Z in every worker process
+	sMainG = getg()
+	hook.SleepFunc = sleepHook
 	hook.Hook = yieldHook
 }
 
